@@ -1,8 +1,8 @@
 /-
   Model/Rules/Merge.lean — overlapping_fields_can_be_merged.rs, modelled in full: the ordered
-  field map, the fragment-name list, the asymmetric `PairSet`, the per-selection-set
-  `visited_fragments` vector shared by all comparisons, the early exits, `field1.position`
-  used twice.  The recursion follows fragment names and is not always terminating (finding F16),
+  field map, the fragment-name list, the asymmetric `PairSet`, the `visited_fragments` vectors
+  (one per selection set for its own fields, a fresh one for each collection of fields compared
+  below it), the early exits, `field1.position` used twice.  The recursion follows fragment names and is not always terminating (finding F16),
   so every call level consumes fuel; running out = `stuck`.
 -/
 import GqlVerif.Model.Rules.Basic
@@ -188,10 +188,14 @@ def betweenSubSelectionSets (s : Schema) (d : Document) :
     let c1 := fieldsAndFragmentNames s (pn1.bind s.typeByName) sel1
     let c2 := fieldsAndFragmentNames s (pn2.bind s.typeByName) sel2
     let r := conflictsBetween s d n me c1.1 c2.1 st
+    -- (I): the fragments already compared are remembered per collection of fields (a fresh list for
+    -- each of the two loops); the caller's list is handed back as it was
+    let outer := r.2.visited
     let r := c2.2.foldl (fun (acc : MRes) fn =>
-      let x := fieldsAndFragment s d n c1.1 fn me acc.2; (acc.1 ++ x.1, x.2)) r
+      let x := fieldsAndFragment s d n c1.1 fn me acc.2; (acc.1 ++ x.1, x.2)) (r.1, { r.2 with visited := [] })
     let r := c1.2.foldl (fun (acc : MRes) fn =>
-      let x := fieldsAndFragment s d n c2.1 fn me acc.2; (acc.1 ++ x.1, x.2)) r
+      let x := fieldsAndFragment s d n c2.1 fn me acc.2; (acc.1 ++ x.1, x.2)) (r.1, { r.2 with visited := [] })
+    let r : MRes := (r.1, { r.2 with visited := outer })
     c1.2.foldl (fun (acc : MRes) a =>
       c2.2.foldl (fun (acc : MRes) b =>
         let x := betweenFragments s d n a b me acc.2; (acc.1 ++ x.1, x.2)) acc) r
